@@ -21,6 +21,7 @@ type IterInfo struct {
 	Depth int
 	Value int
 	Pv    []types.Move
+	At    time.Time
 }
 
 // SentResult is one SendResult call.
@@ -48,12 +49,12 @@ func (d *Driver) SendInfoString(info string) {
 }
 func (d *Driver) SendIterationEndInfo(depth int, seldepth int, value types.Value, nodes uint64, nps uint64, t time.Duration, pv moveslice.MoveSlice) {
 	d.mu.Lock()
-	d.Iters = append(d.Iters, IterInfo{depth, int(value), append([]types.Move{}, pv...)})
+	d.Iters = append(d.Iters, IterInfo{depth, int(value), append([]types.Move{}, pv...), time.Now()})
 	d.mu.Unlock()
 }
 func (d *Driver) SendAspirationResearchInfo(depth int, seldepth int, value types.Value, bound string, nodes uint64, nps uint64, t time.Duration, pv moveslice.MoveSlice) {
 	d.mu.Lock()
-	d.Iters = append(d.Iters, IterInfo{depth, int(value), append([]types.Move{}, pv...)})
+	d.Iters = append(d.Iters, IterInfo{depth, int(value), append([]types.Move{}, pv...), time.Now()})
 	d.mu.Unlock()
 }
 func (d *Driver) SendCurrentRootMove(currMove types.Move, moveNumber int) {}
@@ -71,6 +72,19 @@ func (d *Driver) Snapshot() (iters []IterInfo, results []SentResult, ready int) 
 	d.mu.Lock()
 	defer d.mu.Unlock()
 	return append([]IterInfo{}, d.Iters...), append([]SentResult{}, d.Results...), d.ReadyOk
+}
+
+// ItersBetween returns the iteration reports that arrived after a and not after b.
+func (d *Driver) ItersBetween(a, b time.Time) []IterInfo {
+	d.mu.Lock()
+	defer d.mu.Unlock()
+	var out []IterInfo
+	for _, it := range d.Iters {
+		if it.At.After(a) && !it.At.After(b) {
+			out = append(out, it)
+		}
+	}
+	return out
 }
 
 // Reset clears the record.
